@@ -948,8 +948,8 @@ mod real {
     }
 
     /// mt_real <type> <workers> <input> <drop> <repeat>
-    /// runs the scenario `repeat` times on std threads; wall-clock guard 5 s per run; thread census
-    /// of the process before and 300 ms after the last drop
+    /// runs the scenario `repeat` times on std threads; wall-clock guard 90 s per run; thread census
+    /// of the process before and (polling up to 20 s) after the last drop
     pub fn exec_real(a: &[&str]) -> (String, String) {
         let (kind, workers, input, dropa) = (a[1].to_string(), a[2].parse::<u32>().unwrap(), a[3].to_string(), a[4].to_string());
         let repeat: usize = a[5].parse().unwrap();
@@ -974,7 +974,7 @@ mod real {
                     Ok(r) => break Some(r),
                     Err(_) => {
                         max_threads = max_threads.max(tasks());
-                        if t0.elapsed() > Duration::from_secs(5) {
+                        if t0.elapsed() > Duration::from_secs(90) {
                             break None;
                         }
                     }
@@ -989,15 +989,23 @@ mod real {
                 }
                 None => {
                     *outcomes.entry("HANG".to_string()).or_insert(0) += 1;
-                    verdict = "FAIL a call did not return within 5 s".into();
+                    verdict = "FAIL a call did not return within 90 s".into();
                     break;
                 }
             }
         }
-        std::thread::sleep(Duration::from_millis(300));
-        let after = tasks();
+        // released workers need to be scheduled to exit: wait up to 20 s (loaded machine) for the
+        // census to come back to where it started
+        let mut after = tasks();
+        for _ in 0..200 {
+            if after <= before {
+                break;
+            }
+            std::thread::sleep(Duration::from_millis(100));
+            after = tasks();
+        }
         if verdict == "ok" && after > before {
-            verdict = format!("FAIL {} thread(s) still alive 300 ms after the last drop", after - before);
+            verdict = format!("FAIL {} thread(s) still alive 20 s after the last drop", after - before);
         }
         // threads of this process while running: harness pool (16) + runner + workers
         let o = outcomes.iter().map(|(k, v)| format!("{}x{}", k, v)).collect::<Vec<_>>().join(",");
